@@ -42,6 +42,9 @@ def shape_arg(a, conv=lambda e: e, present="list"):
         v = [[conv(e) for e in row] for row in a["x"]]
     if present == "ndarray":
         return np.array(v)
+    if present == "fortran":
+        # same logical array, column-major memory layout (as produced by .T, asfortranarray, order="F" reshapes)
+        return np.asfortranarray(np.array(v))
     if present == "tuple" and a["k"] == "l":
         return tuple(v)
     return v
